@@ -60,6 +60,12 @@ def gen_vector(rng, n, kind, basis_index=0):
         return np.array([rng.uniform(0.001, 1000.0) for _ in range(n)])
     if kind == "ramp":
         return np.array([float(i + 1) for i in range(n)])
+    if kind == "withinf":
+        # PSDs of models with a pole or zero on the unit circle contain inf / 0 at single bins
+        v = np.array([rng.uniform(0.5, 100.0) for _ in range(n)])
+        for _ in range(rng.randrange(1, 3)):
+            v[rng.choice([0, n - 1, rng.randrange(0, n)])] = rng.choice([float("inf"), 0.0, float("inf")])
+        return v
     if kind == "ints":
         # integer dtype with odd values: halving must not truncate
         return np.array([2 * rng.randrange(1, 50) + 1 for _ in range(n)], dtype=np.int64)
@@ -80,6 +86,8 @@ class Run(object):
         self.init_error = None
         self.p = None
         self.paths = []          # successful conversion targets, in order
+        self.pending = False     # an invalidating assignment was accepted since the PSD was stored
+        self.dead = False        # the object's configuration became uncomputable: only psd= revives it
         self.cplx = bool(cfg["cplx"])
         sp = sut.load()
         try:
@@ -216,18 +224,38 @@ class Run(object):
         entry = {"i": idx, "op": op if k not in ("setpsd", "helpers", "arma") else {"op": k, "d": arr_digest(
             dec_array(op["value"])) if k == "setpsd" else log_digest(op)[:16]}}
         try:
-            if k == "sides":
+            if self.dead and k in ("sides", "conv", "read", "invalidate"):
+                outcome = "skipped"
+            elif k == "sides":
                 viol, outcome = self._op_sides(idx, op)
             elif k == "conv":
                 viol, outcome = self._op_conv(idx, op)
             elif k == "read":
-                viol = self._check_object(idx)
+                if self.pending:
+                    # the read recomputes; documented: a recomputation stores the default representation
+                    self.pending = False
+                    self.sides = default_sides(self.cplx)
+                    self.bump("probe:read_with_invalidation_pending")
+                    try:
+                        p.psd
+                    except Exception as e:
+                        if self.model_ok:
+                            raise Violation("rejected_valid", idx, "psd raised %s although a fresh object with the "
+                                            "same attribute values computes it" % type(e).__name__)
+                        self.sides = p.sides
+                        self.dead = True
+                if self.model_ok or not self.pending:
+                    viol = self._check_object(idx)
             elif k == "setpsd":
                 v = dec_array(op["value"])
                 p.psd = v.tolist() if op["value"].get("c") == "list" else v
+                self.pending = False
+                self.dead = False
                 self._rebase(v)
                 self.paths = []
                 viol = self._check_object(idx)
+            elif k == "invalidate":
+                viol, outcome = self._op_invalidate(idx, op)
             elif k == "helpers":
                 viol = self._op_helpers(idx, op)
             elif k == "arma":
@@ -238,7 +266,8 @@ class Run(object):
             viol = v
         self.bump("op:%s:%s" % (k, outcome.split(":")[0]))
         entry["out"] = outcome
-        if viol is None and k in ("sides", "conv", "setpsd", "read"):
+        if viol is None and k in ("sides", "conv", "setpsd", "read") and not self.pending and not self.dead \
+                and outcome != "skipped":
             try:
                 entry["psd"] = arr_digest(np.asarray(p.psd))
                 entry["sides"] = p.sides
@@ -269,6 +298,8 @@ class Run(object):
         target = default_sides(self.cplx) if val == "default" else val
         valid = val in SIDES or val == "default"
         undefined = valid and self.cplx and target == "onesided"
+        if self.pending:
+            return self._op_sides_pending(idx, op, val, target, valid, undefined)
         before = self._snapshot()
         try:
             p.sides = val
@@ -314,11 +345,103 @@ class Run(object):
         self.paths.append(target)
         return self._check_object(idx), "ok"
 
+    # -- conversions requested while an invalidation is pending ------------------------------------------
+    # The stored PSD is obsolete.  Whatever brings it up to date stores the new estimate in the default
+    # representation (documented); a `sides` assignment then converts THAT estimate, so "a sequence that
+    # ends at sides s gives the direct conversion to s" of the current estimate.  The model was re-based
+    # on a fresh object's default PSD when the invalidating assignment was accepted.  The object's psd is
+    # never read by the harness while the invalidation is pending (a read is itself an event).
+    def _op_invalidate(self, idx, op):
+        p = self.p
+        try:
+            setattr(p, op["attr"], m07.dec_data(op["value"]) if op["attr"] == "data" else op["value"])
+        except Exception as e:
+            return None, "raised:" + type(e).__name__
+        try:
+            ecfg = self.cfg["est"]
+            fresh = sut.construct(self.cls, sut.snapshot(self.cls, p), ecfg["const"])
+            v = np.array(fresh.psd)
+        except Exception as e:
+            # the new configuration cannot be computed at all: nothing to convert any more
+            self.model_ok = False
+            self.pending = True
+            self.bump("invalidate_to_uncomputable")
+            return None, "ok"
+        keep = self.sides
+        self._rebase(v)
+        self.sides = keep            # the label is only reset when the recomputation happens
+        self.pending = True
+        self.paths = []
+        self.bump("probe:invalidation_while_sides_%s" % ("default" if keep == self.store_sides else "nondefault"))
+        return None, "ok"
+
+    def _op_sides_pending(self, idx, op, val, target, valid, undefined):
+        p = self.p
+        try:
+            p.sides = val
+            exc = None
+        except Exception as e:
+            exc = e
+        self.bump("probe:sides_assigned_with_invalidation_pending")
+        if exc is None and valid and not undefined and not self.model_ok:
+            self.pending = False
+            self.sides = target
+            return self._check_object(idx), "ok"       # label only: the values are not modelled
+        if exc is not None or not valid or undefined or not self.model_ok:
+            # outcome not defined by the statement (rejected / undefined request, or nothing computable):
+            # resolve the pending state with a read and carry on from the default representation
+            self.pending = False
+            try:
+                p.psd
+            except Exception:
+                self.model_ok = False
+                self.sides = p.sides
+                self.dead = True
+                return None, "ok" if exc is None else "raised"
+            if exc is not None and valid and not undefined and self.model_ok:
+                return Violation("rejected_valid", idx, "sides=%r was rejected with %s" % (val, type(exc).__name__)), "raised"
+            self.sides = p.sides if (exc is None and (not valid or undefined)) else default_sides(self.cplx)
+            if exc is None and (not valid or undefined):
+                self.model_ok = False
+                return None, "ok"
+            return self._check_object(idx), "ok" if exc is None else "raised"
+        self.pending = False
+        self.sides = target
+        self.paths.append(target)
+        return self._check_object(idx), "ok"
+
     def _op_conv(self, idx, op):
         p = self.p
         s = op["sides"]
         valid = s in SIDES
         undefined = valid and self.cplx and s == "onesided"
+        if self.pending:
+            # get_converted_psd brings the object up to date first: the object legitimately changes
+            self.pending = False
+            self.sides = default_sides(self.cplx)
+            self.bump("probe:get_converted_with_invalidation_pending")
+            try:
+                got = p.get_converted_psd(s)
+            except Exception as e:
+                if valid and not undefined and self.model_ok:
+                    return Violation("rejected_valid", idx, "get_converted_psd(%r) raised %s" % (s, type(e).__name__)), "raised"
+                try:
+                    p.psd
+                    self.sides = p.sides
+                except Exception:
+                    self.model_ok = False
+                    self.sides = p.sides
+                    self.dead = True
+                return None, "raised:" + type(e).__name__
+            if not valid or undefined or not self.model_ok:
+                self.sides = p.sides
+                return None, "ok"
+            self.checked_reads += 1
+            v = self._check_vector(idx, "get_converted_psd(%r) after an invalidating assignment" % s, got, s,
+                                   p.frequencies(s), p.df)
+            if v is None:
+                v = self._check_object(idx)
+            return v, "ok"
         before = self._snapshot()
         try:
             got = p.get_converted_psd(s)
@@ -446,7 +569,8 @@ def base_cfg(rng, cplx, M, kind, basis_index=0):
     n = M if cplx else refmodel.n_onesided(M)
     vec = gen_vector(rng, n, kind, basis_index)
     return {"kind": "base", "cplx": bool(cplx), "M": M, "N": rng.choice([max(2, M), max(2, M // 2), M + 3]),
-            "sampling": rng.choice([1.0, 1.0, 2.0, 1000.0, 0.5]), "vec": enc_array(vec), "vkind": kind}
+            "sampling": rng.choice([1.0, 1.0, 2.0, 1000.0, 0.5, 100.0, 44100.0, 8000.0, 0.1, 3.0, 1024.0]),
+            "vec": enc_array(vec), "vkind": kind}
 
 
 def est_cfg(rng):
@@ -542,9 +666,21 @@ def gen_helper_chain(rng, M):
     return chain
 
 
+def gen_invalidate(rng, run):
+    p = run.p
+    kind = rng.choice(["sampling", "scale_by_freq", "data"])
+    if kind == "sampling":
+        return {"op": "invalidate", "attr": "sampling", "value": rng.choice([x for x in (0.5, 1.0, 2.0, 4.0, 1000.0) if x != p.sampling])}
+    if kind == "scale_by_freq":
+        return {"op": "invalidate", "attr": "scale_by_freq", "value": not p.scale_by_freq}
+    return {"op": "invalidate", "attr": "data", "value": m07.enc_data(m07.gen_signal(rng, p.N, run.cplx))}
+
+
 def gen_op(rng, run):
     r = rng.random()
     cplx = run.cplx
+    if run.cfg["kind"] == "est" and rng.random() < 0.18:
+        return gen_invalidate(rng, run)
     if r < 0.42:
         val = rng.choice(list(SIDES) + ["default", run.sides])
         if rng.random() < 0.08:
@@ -561,14 +697,14 @@ def gen_op(rng, run):
         n = run.M if cplx else refmodel.n_onesided(run.M)
         if cplx and rng.random() < 0.4:
             n = rng.choice([1, 2, 3, 4, 5, 7, 8, 9, 16, 17, rng.randrange(1, 65)])
-        kind = rng.choice(["basis", "distinct", "random", "ramp", "ints"])
+        kind = rng.choice(["basis", "distinct", "random", "ramp", "ints", "withinf"])
         d = enc_array(gen_vector(rng, n, kind, rng.randrange(0, n)))
         if rng.random() < 0.3:
             d["c"] = "list"
         return {"op": "setpsd", "value": d}
     if r < 0.95:
         M = rng.choice([1, 2, 3, 4, 5, 6, 7, 8, 9, 15, 16, 17, 32, 33, rng.randrange(1, 65)])
-        kind = rng.choice(["basis", "distinct", "random", "symmetric", "ints"])
+        kind = rng.choice(["basis", "distinct", "random", "symmetric", "ints", "withinf"])
         if kind == "symmetric":
             h = gen_vector(rng, refmodel.n_onesided(M), "random")
             v = refmodel.canonical_from(h, "onesided", M)
@@ -589,7 +725,9 @@ def run_random(seed):
     if rng.random() < 0.6:
         M = rng.choice([1, 2, 3, 4, 5, 6, 7, 8, 9, 15, 16, 17, 31, 32, 33, 63, 64, rng.randrange(1, 65)])
         cplx = rng.random() < 0.5
-        kind = rng.choice(["basis", "distinct", "random", "ramp", "ints"])
+        kind = rng.choice(["basis", "distinct", "random", "ramp", "ints", "withinf"])
+        if rng.random() < 0.25:
+            M = rng.randrange(65, 513)           # sizes beyond the systematic stratum (numeric coincidences)
         cfg = base_cfg(rng, cplx, M, kind, rng.randrange(0, 64))
     else:
         cfg = est_cfg(rng)
@@ -643,6 +781,8 @@ def describe(cfg, ops):
             out.append("get_converted_psd(%r)" % (o["sides"],))
         elif k == "read":
             out.append("psd")
+        elif k == "invalidate":
+            out.append("%s=%s" % (o["attr"], "<new data>" if o["attr"] == "data" else repr(o["value"])))
         elif k == "setpsd":
             out.append("psd=<%d values>" % len(o["value"]["v"]))
         elif k == "helpers":
@@ -708,7 +848,9 @@ ASSUMPTIONS = [
     "a one-sided representation of a complex-data PSD is undefined: such a request may be rejected or accepted, "
     "its result is not examined",
     "values are kept away from subnormals so that halving and re-adding halves is exact",
-    "no invalidating assignment occurs in these histories (that interplay is C07's)",
+    "invalidating assignments (sampling, scale_by_freq, same-shape data) occur on estimator-backed objects only; the "
+    "model is then re-based on a fresh object's default PSD, and the object's psd is never read by the harness "
+    "while the invalidation is pending",
 ]
 
 PLANS = {
